@@ -265,7 +265,23 @@ func c03Tasks(tier string) []Task {
 	for d := 1; d <= bd; d++ {
 		bl = append(bl, seqLevel{Name: fmt.Sprintf("block-len%d", d), Cfgs: []Cfg{blk}, Keys: keysAB, Alpha: c03BlockAlphabet, Depth: d, Dev: 3, Run: runBlock, MaxViols: 1})
 	}
-	return append(tasks, seqTasks("C03", bl)...)
+	tasks = append(tasks, seqTasks("C03", bl)...)
+	// memory-mapped back-end: a mapped file keeps its 512 MiB size after an unclean shutdown and the bytes that
+	// were not flushed read as zeros (cut = zero-fill from the cut position on, physical size unchanged)
+	var ml []seqLevel
+	md := 2
+	if tier == "thorough" {
+		md = 3
+	}
+	var mcfgs []Cfg
+	for _, c := range c03Cfgs() {
+		c.IO = 1
+		mcfgs = append(mcfgs, c)
+	}
+	for d := 1; d <= md; d++ {
+		ml = append(ml, seqLevel{Name: fmt.Sprintf("mmap-len%d", d), Cfgs: mcfgs, Keys: keysAB, Alpha: c03Alphabet, Depth: d, Dev: 3, Run: runC03, MaxViols: 1})
+	}
+	return append(tasks, seqTasks("C03", ml)...)
 }
 
 func init() {
@@ -274,9 +290,8 @@ func init() {
 		Engine: "crash",
 		Rule:   "every workload of length 1..d over the alphabet x every sync strategy: a crash image is taken after EVERY intercepted I/O event of the last operation (shorter workloads cover the earlier ones) and after it returned; each image is recovered with the real Open as it is (process death) and with every admissible cut of every unsynced file tail, singly and in pairs (power loss); the recovered dump must equal S_j for j in the acknowledgement / durability window, a second Open must agree, and (process-death images) the recovered database is driven on through a batch, a delete and two more restarts under the reference-map oracle. states = distinct crash images; non-trivial = workloads whose last operation issued more than one I/O event",
 		Assumptions: []string{
-			"Standard I/O; a write call is atomic under process death; power loss cuts unsynced tails (no block reordering inside a tail, directory operations atomic and durable in issue order)",
+			"a write call is atomic under process death; power loss cuts unsynced tails (no block reordering inside a tail, directory operations atomic and durable in issue order); Standard I/O: the file is shorter; MMap: the lost bytes read as zeros and the file keeps its mapped size",
 			"crash instants are the boundaries of intercepted calls",
-			"MMap under unclean shutdown is not explored here (see DESIGN.md §8)",
 		},
 		Tasks: c03Tasks,
 		Bounds: func(tier string) map[string]any {
